@@ -8,11 +8,12 @@ requested version and satisfies all dependencies of its members."
 Theorem about the coroutine model of `resolve`, for every world, every answer sequence consistent
 with it (any strategy, any tie-breaking, any fuel), every lawful version set.
 
-Open: the "equivalently" clause (whether a solution is found never depends on the strategy) needs,
-besides this theorem, C01's soundness of `Ok` *and* termination (C05): two runs could otherwise differ
-by one of them not finishing.  With `C01_solution_valid` (see C01) the part that is proved is: no two
-runs over the same world end one in `Ok` with a valid solution and the other in `NoSolution`
-(`C02_not_both`).
+The "equivalently" clause (whether a solution is found never depends on the strategy) needs, besides
+`C02_noSolution_sound`, C01's soundness of `Ok` and termination (C05): all three are proved, and combined
+in `C02_resolve_returns` (over a finite registry `resolve` returns within `N` provider calls, and what
+it returns is decided by the registry: `Ok(sel)` with `sel` a solution, or `NoSolution` and no solution
+exists) and `C02_strategy_independent` (two well-behaved runs over one registry never return one `Ok`
+and the other `NoSolution`); both also for `Range` over any linear order.
 -/
 import PubgrubProofs.StoreInvariant
 import PubgrubProofs.RangeAnyOrder
